@@ -51,3 +51,5 @@ mod bvec;
 mod mutvec2;
 #[cfg(kani)]
 mod failfmt;
+#[cfg(kani)]
+mod cstr;
